@@ -463,7 +463,7 @@ def ui_sub (prec : Nat) (rIsV : Bool) (u : Nat) (v : F) : F :=
       else (ud, vd, uexp)
     let (rd, e, flip) := uiSubGeneral p ud vd uexp ediff
     let neg' := negate != flip
-    ⟨prec, if neg' then -(rd.length : Int) else rd.length, e, rd⟩                  -- :324-326 (no exp reset for zero!)
+    ⟨prec, if neg' then -(rd.length : Int) else rd.length, if rd.length = 0 then 0 else e, rd⟩   -- :324-329 done
 
 /- ------------------------------------------------------------------ division -/
 
